@@ -6,7 +6,7 @@
 Require Extraction.
 Require Import ExtrOcamlBasic.
 From SwiftMT Require Import Base.Bytes Dispatch.Model Dispatch.Facts Dispatch.Instance.
-From SwiftMT Require Import Dates.DateTime Num.Amount Classify.Model Headers.Hdr12 Headers.Hdr35 Headers.B3 Headers.Blocks.
+From SwiftMT Require Import Dates.DateTime Num.Amount Classify.Model Headers.Hdr12 Headers.Hdr35 Headers.B3 Headers.Blocks Legacy.Block4Map Legacy.Tracker.
 From SwiftMT Require Import Base.StrOps Engine.Layout Engine.Tokens Engine.Extract Engine.Instance.
 
 Extraction "swiftmt_model.ml"
@@ -19,4 +19,5 @@ Extraction "swiftmt_model.ml"
   Num.Amount.parse_amount Num.Amount.parse_amount_dec Num.Amount.to_bits Num.Amount.format_amount Num.Amount.to_dec
   Classify.Model.has_reject Classify.Model.has_return Classify.Model.is_cover Classify.Model.plugin_method
   Headers.Hdr12.parse_b1 Headers.Hdr12.display_b1 Headers.Hdr12.parse_b2 Headers.Hdr12.display_b2 Headers.Hdr12.message_type_of
-  Headers.Blocks.extract_block Headers.Blocks.trailer_display Headers.Blocks.user_header_display Headers.Hdr35.read_tag.
+  Headers.Blocks.extract_block Headers.Blocks.trailer_display Headers.Blocks.user_header_display Headers.Hdr35.read_tag
+  Legacy.Block4Map.parse_block4_fields Legacy.Block4Map.stamp Legacy.Tracker.lookup_variant Legacy.Tracker.split_into_sequences Legacy.Tracker.get_sequence_config.
